@@ -76,3 +76,22 @@ Definition judge_cfg_words_of_pda (P : pda) (n : nat) (ows : option (list word))
   | None => 0
   | Some ws => let '(L, tr) := pda_words pick_head P 2000 n in if tr then 1 else check (seteqb L ws) 44
   end.
+
+(* ---- minimisers on large DFAs (Decide/Moore.v: a fast, proved computation of the Myhill-Nerode classes): the result is a valid DFA
+   over the same alphabet, language-equivalent (product reachability), has as many states as D has classes (C04_spec, 
+   moore_count_of_min_spec) and its own states are pairwise distinguishable (its class count equals its state count).
+   Result states are coded injectively by the harness; their names are not interpreted. ---- *)
+From GT Require Import Decide.Moore.
+Definition judge_min_big (D : dfa nat) (o : option (dfa nat)) (c : nat) : nat :=
+  match o with
+  | None => c
+  | Some R =>
+    if negb (dfa_wf_b R) then c + 1
+    else if negb (seteqb (dS R) (dS D)) then c + 1
+    else if negb (dfa_equivb D R) then c + 2
+    else if negb (Nat.eqb (moore_count R) (length (dedup (dQ R)))) then c + 3
+    else if negb (Nat.eqb (length (dedup (dQ R))) (moore_count D)) then c + 4
+    else 0
+  end.
+Definition judge_C04_big (D : dfa nat) (o_min o_quo o_hop : option (dfa nat)) (unchanged : bool) : nat :=
+  worst_code [ check (dfa_wf_b D) 9; judge_min_big D o_min 10; judge_min_big D o_quo 20; judge_min_big D o_hop 30; check unchanged 40 ].
